@@ -104,7 +104,12 @@ TSConfs == [inner2Emb |-> [Inner2 |-> [type |-> "object", properties |-> [X |-> 
             innerTyped |-> [Inner |-> [type |-> "object", description |-> "custom"]],
             innerUntyped |-> [Inner |-> [description |-> "custom"]],
             innerTypes |-> [Inner |-> [types |-> <<"object", "string">>]],
-            embOverride |-> [Emb |-> [type |-> "object", properties |-> [q |-> [type |-> "string"], p |-> [type |-> "integer"]]]]]
+            embOverride |-> [Emb |-> [type |-> "object", properties |-> [q |-> [type |-> "string"], p |-> [type |-> "integer"]]]],
+            \* entries for types that have a built-in translation (time.Time, *big.Int): the entry wins
+            stdOverride |-> ("std:time" :> [type |-> "string", format |-> "date-time"]) @@ ("std:bigint" :> [type |-> "integer"])]
+OTSStd == {Std("time"), Ptr(Std("time")), Slice(Std("time")), MapOf(Ptr(Std("time"))),
+           Struct("S", <<Field("When", "", {}, Std("time")), Field("Until", "u", {"omitempty"}, Ptr(Std("time"))), Field("N", "", {}, Ptr(Std("bigint"))),
+                         Field("L", "", {}, Std("level"))>>)}
 \* jsonschema struct tags
 DescF(go, t, d) == Field(go, "", {}, t) @@ [desc |-> d]
 ODesc == {Struct("S", <<DescF("A", Prim("int8"), d), Field("B", "b", {"omitempty"}, Prim("string"))>>) : d \in {"the a", "", "k=v", "a=b c", "a b=c", " x=y"}}
@@ -118,6 +123,7 @@ ODesc == {Struct("S", <<DescF("A", Prim("int8"), d), Field("B", "b", {"omitempty
 OCases == {[t |-> t, ign |-> ign, tsn |-> "none"] : t \in ODesc, ign \in BOOLEAN} \cup {[t |-> t, ign |-> ign, tsn |-> "none"] : t \in UNION {OBad, ORec, OMany}, ign \in BOOLEAN}
           \cup {[t |-> t, ign |-> FALSE, tsn |-> c] : t \in OTS, c \in {"innerTyped", "innerUntyped", "innerTypes", "embOverride"}}
           \cup {[t |-> t, ign |-> FALSE, tsn |-> c] : t \in OTS2, c \in {"inner2Emb", "none"}}
+          \cup {[t |-> t, ign |-> FALSE, tsn |-> c] : t \in OTSStd, c \in {"stdOverride", "none"}}
 
 Types(z) ==
   CASE Family = "T" -> IF K >= 2 THEN UNION {T1, T2, T3} ELSE UNION {T1, T2}
